@@ -308,8 +308,8 @@ class Symx:
             return self.binop(e, st)
         if k == 'Cond':
             c = self.as_bool(self.sym(e['c'], st))
-            a = self.sym(e['a'], st)
-            b = self.sym(e['b'], st)
+            a = self.sym_or_name(e['a'], st)
+            b = self.sym_or_name(e['b'], st)
             if c == S.true:
                 return a
             if c == S.false:
@@ -464,9 +464,11 @@ class Symx:
             a = [self.sym(x, st) for x in args]
             return Function('F:' + self.lv_name(fnv), real=True)(*a)
         short = q.split('::')[-1]
-        if q in ('std::' + short, short) or q.startswith('std::') and short in ('min', 'max', 'swap', 'isnan', 'isinf', 'pow'):
+        if q in ('std::' + short, short) or q.startswith('std::') and short in ('min', 'max', 'swap', 'isnan', 'isinf', 'pow', 'copysign'):
             if short in self.MATH1 and len(args) == 1:
                 return self.MATH1[short](self.sym(args[0], st))
+            if short == 'copysign' and len(args) == 2:
+                return sp.Abs(self.sym(args[0], st)) * sp.sign(self.sym(args[1], st))
             if short == 'pow' and len(args) == 2:
                 b = self.sym(args[0], st)
                 x = self.sym(args[1], st)
